@@ -106,6 +106,35 @@ let do_ck toks now =
     Printf.sprintf "now=%d c0=%s r=%s" now (hex_of_bytes c0) (String.concat "" r)
   | _ -> "badline"
 
+(* ---- sq: a history on one CookieManager (state: the lifetime; the clock advances with W) ---- *)
+let do_sq toks now =
+  match toks with
+  | secret :: ttl :: steps ->
+    let h = fun d -> ns_of_ints (hmac_sha256 (ints_of_hex secret) (List.map int_of_n d)) in
+    let ttl = ref (z_of_int (int_of_string ttl)) and cur = ref now and gens = ref [] in
+    let cm o = let (t', x) = cm_step h !ttl o in ttl := t'; x in
+    let outs = List.map (fun st ->
+      match split '/' st with
+      | ["G"; m; sv; cv] ->
+        (match cm (CGen (n_of_int !cur, mk_tuple m sv cv)) with
+         | CCookie c -> gens := !gens @ [c]; "c:" ^ hex_of_bytes c
+         | _ -> "MODELBUG")
+      | ["V"; src; mut; m; sv; cv] ->
+        let c = if src.[0] = 'g' then
+            (let i = int_of_string (String.sub src 1 (String.length src - 1)) in
+             if i < List.length !gens then List.nth !gens i else [])
+          else (match split ',' src with
+              | [_; dt; fm; fs; fc] -> generate h (n_of_int (wrap32 (now - int_of_string dt))) (mk_tuple fm fs fc)
+              | _ -> []) in
+        let c = ns_of_ints (mutate (List.map int_of_n c) mut) in
+        (match cm (CVal (z_of_int (!cur * 1000000000 + 500000000), c, mk_tuple m sv cv)) with
+         | CVerdict true -> "1" | CVerdict false -> "0" | _ -> "MODELBUG")
+      | ["L"; n] -> ignore (cm (CSetTTL (z_of_int (int_of_string n)))); "-"
+      | ["W"; k] -> cur := now + int_of_string k; "-"
+      | _ -> "badstep") steps in
+    String.concat " " (Printf.sprintf "now=%d" now :: outs)
+  | _ -> "badline"
+
 let do_tags toks =
   match toks with
   | [p] ->
@@ -124,14 +153,16 @@ let do_tb toks now =
   | secret :: ttl :: g :: occ :: nx :: ";" :: ops ->
     let h = fun d -> ns_of_ints (hmac_sha256 (ints_of_hex secret) (List.map int_of_n d)) in
     let (lo, hi) = match split '-' (strip "G=" g) with [a; b] -> (int_of_string a, int_of_string b) | _ -> (1, 0) in
-    let e = { e_H = h; e_ttl = z_of_int (int_of_string ttl * 1000000000); e_now_s = n_of_int now;
-              e_now_ns = z_of_int (now * 1000000000 + 500000000);
+    let mk_env ttl_s cur = { e_H = h; e_ttl = z_of_int (ttl_s * 1000000000); e_now_s = n_of_int cur;
+              e_now_ns = z_of_int (cur * 1000000000 + 500000000);
               e_grp = (fun ((_, sv), _) -> let s = int_of_n sv in lo <= s && s <= hi) } in
+    let env = ref (mk_env (int_of_string ttl) now) in
+    let cur_ttl = ref (int_of_string ttl) and cur_now = ref now in
     let s = ref st0 in
     let dead = ref false in
     let nonbulk = ref [] in          (* (uid, sid, tuple) in creation order, reversed *)
     let do_step o = if !dead then None else
-      match step !variant e !s o with
+      match step !variant !env !s o with
       | Some (s', x) -> s := s'; Some x
       | None -> dead := true; None in
     (* bulk population *)
@@ -181,6 +212,8 @@ let do_tb toks now =
       | ["T"; m; sv; cv; sid] -> show (do_step (PADT (mk_tuple m sv cv, n_of_int (int_of_string sid)))) None
       | ["S"; m; sv; cv; sid; _] -> show (do_step (SESS (mk_tuple m sv cv, n_of_int (int_of_string sid)))) None
       | ["D"; sid] -> show (do_step (DEAD (n_of_int (int_of_string sid)))) None
+      | ["W"; k] -> cur_now := now + int_of_string k; env := mk_env !cur_ttl !cur_now; "-"
+      | ["L"; n] -> cur_ttl := int_of_string n; env := mk_env !cur_ttl !cur_now; "-"
       | ["X"; sid; m; sv; cv] ->
         let t = mk_tuple m sv cv in
         (match do_step (RESTORE (n_of_int (int_of_string sid), t)) with
@@ -227,6 +260,7 @@ let () =
         | [] -> ""
         | "tags" :: r -> do_tags r
         | "ck" :: r -> (match impl_now il with Some now -> do_ck r now | None -> "noclock")
+        | "sq" :: r -> (match impl_now il with Some now -> do_sq r now | None -> "noclock")
         | "tb" :: r -> (match impl_now il with Some now -> do_tb r now | None -> "noclock")
         | _ -> "badline"
       with ex -> "driver-exception " ^ Printexc.to_string ex in
